@@ -1140,6 +1140,73 @@ func multiConn(r *vlib.Run, ds, dd *vlib.Driver, c scenarioCase) {
 	}
 }
 
+// reseedInflight: the server's 45-byte seed frame arrives separately from the handshake
+// response and is processed by Read() while a paranoid-mode Write of the client is in the middle
+// of its burst (here: from inside the net.Conn's Write call of the burst's segment number
+// `after`, i.e. while obfs4's Write is between two segments). From then on the client uses the
+// bridge's distribution: every LATER segment of that same burst is a length of the bridge's table.
+func reseedInflight(r *vlib.Run, p *pair, c scenarioCase) {
+	key := fmt.Sprintf("reseed-inflight|%s|%d|%v|%d|%d", c.Seed, c.N, c.Biased, c.Packets, c.RngKey)
+	own := ownDist(c.Seed, mss, c.Biased)
+	pre := lenDist(p.cli.conn)
+	if p.coalesced || tableClass(pre.values) != "normal" || tableClass(own.values) != "normal" || pre.str == own.str {
+		r.Case(key, false)
+		return
+	}
+	inOwn := map[int]bool{}
+	for _, v := range own.values {
+		inOwn[v] = true
+	}
+	after := c.Packets // process the seed during this segment's Conn.Write (1-based)
+	seg, adoptedAt := 0, -1
+	var readProblem string
+	p.cli.sc.OnWrite = func([]byte) {
+		seg++
+		if seg == after {
+			_, readProblem = drain(p.cli)
+			if lenDist(p.cli.conn).str == own.str {
+				adoptedAt = seg
+			}
+		}
+	}
+	res := doWrite(p.cli, make([]byte, c.N), nil, sampleCap)
+	p.cli.sc.OnWrite = nil
+	r.Case(key, adoptedAt > 0 && len(res.sizes) > adoptedAt+1)
+	r.Validated(1)
+	r.Count("reseed-inflight", fmt.Sprintf("segments-after-adoption=%s", sizeBucket(len(res.sizes)-after)))
+	switch {
+	case res.panicked != "":
+		r.Violate("write-panics-under-concurrent-reseed", "impl-oracle", "Write panicked while the seed packet was processed mid-burst: "+res.panicked, c)
+		return
+	case res.aborted:
+		return // the client's own random table made the burst too long; nothing to judge
+	case readProblem != "":
+		r.Violate("read-fails-under-concurrent-reseed", "impl-oracle", "client Read mid-burst: "+readProblem, c)
+		return
+	case len(res.sizes) >= after && adoptedAt < 0:
+		r.Violate("client-does-not-adopt-server-length-distribution", "impl-oracle", fmt.Sprintf("seed %s: the seed frame was read during segment %d of a burst but the client's table is not the bridge's afterwards", c.Seed, after), c)
+		return
+	}
+	for i := after; i < len(res.sizes); i++ { // segments written after the adoption
+		if !inOwn[res.sizes[i]] || res.sizes[i] == 0 {
+			r.Violate("inflight-burst-ignores-adopted-distribution", "impl-oracle",
+				fmt.Sprintf("bridge seed %s, client iat-mode 2, Write(%d bytes): the seed packet was processed during segment %d of the burst (the connection's table is the bridge's from then on), but segment %d of the same burst is %d bytes, which is not a length of the bridge's table (segments %s…)", c.Seed, c.N, after, i+1, res.sizes[i], clip(joinInts(res.sizes), 100)), c)
+			return
+		}
+	}
+}
+
+func sizeBucket(n int) string {
+	switch {
+	case n <= 0:
+		return "0"
+	case n < 5:
+		return "1-4"
+	default:
+		return "5+"
+	}
+}
+
 func scenario(r *vlib.Run, ds, dd *vlib.Driver, c scenarioCase) {
 	defer func() {
 		if p := recover(); p != nil {
@@ -1179,6 +1246,9 @@ func scenario(r *vlib.Run, ds, dd *vlib.Driver, c scenarioCase) {
 		return
 	case "reseed-race":
 		reseedRace(r, p, c)
+		return
+	case "reseed-inflight":
+		reseedInflight(r, p, c)
 		return
 	}
 	if c.Op == "write1" {
@@ -1446,6 +1516,14 @@ func main() {
 			seeds = append(seeds, sd)
 		}
 		scenario(r, ds, dd, scenarioCase{Op: "multi-conn", Seeds: seeds, SrvIat: i % 3, CliIat: (i / 2) % 3, Biased: i%4 == 3, RngKey: mrng.U64()})
+	}
+
+	// ---- (g) the seed frame is processed while a paranoid burst of the client is in flight
+	irng := rng.Fork()
+	for i, n := 0, r.Scale(8, 60); i < n; i++ {
+		seed, _ := findSeed(irng, 5000, func(v []int) bool { return tableClass(v) == "normal" && len(v) >= 10 })
+		scenario(r, ds, dd, scenarioCase{Op: "reseed-inflight", Seed: seed, SrvIat: i % 3, CliIat: 2, Biased: i%2 == 1, RngKey: irng.U64() | 1,
+			N: 6000 + 3000*(i%4), Packets: 1 + i%3})
 	}
 
 	// ---- (e) seed packets streaming in while the client writes (Reset vs Sample, truly concurrent)
